@@ -313,7 +313,7 @@ Proof.
   { unfold answers in Ha. apply andb_true_iff in Ha. destruct Ha as [_ Hrep]. unfold fanout. destruct (m_type m); try discriminate; [now rewrite Hkr | now rewrite Hke]. }
   cbn [exec]. unfold step at 1. rewrite Hrd, Hso, Hfan.
   unfold step at 1. cbn [reader with_reader with_socket ch]. unfold try_push. rewrite Hncl.
-  pose proof (cursor_some_rcv (ch s) i p Hcur) as Hrcv. destruct (rcv (ch s)) as [|r0 rs] eqn:Er; [congruence|].
+  pose proof (cursor_some_rcv _ (ch s) i p Hcur) as Hrcv. destruct (rcv (ch s)) as [|r0 rs] eqn:Er; [congruence|].
   assert (Hfull : (cap (ch s) <=? qlen (ch s)) = false) by (apply Nat.leb_gt; exact Hroom). rewrite Hfull.
   unfold step at 1. cbn [reader with_reader with_ch]. eexists. split; [reflexivity|]. cbn. repeat split; reflexivity.
 Qed.
@@ -338,6 +338,78 @@ Proof.
 Qed.
 Theorem exec_reach cs cap t tr s : exec tr (init cs cap t) = Some s -> reach cs cap t tr s.
 Proof. intros H. apply (exec_reach_gen cs cap t tr [] (init cs cap t) s); [constructor | assumption]. Qed.
+
+(* ---- the refutation of the full statement, and what it means: after the hijack no METHOD_RETURN ever enters the channel ---- *)
+Lemma hijack_witness_reach : reach hijack_cs 8 false hijack_trace hijack_witness.
+Proof. apply exec_reach. exact hijack_witness_exec. Qed.
+
+Theorem hijack_refuted : ~ delivery_statement false.
+Proof.
+  intros H.
+  destruct (H hijack_cs 8 false hijack_trace hijack_witness 0 {| c_kind := KCall; c_serial := 1%N; c_st := CWaiting |} hijack_reply []
+              hijack_witness_reach) as (s' & He & _); try reflexivity; try discriminate.
+  vm_compute. lia.
+Qed.
+
+Definition ret_dead (s : sys) : Prop := kret s = false /\ forall m n, reader s = RPush (IMsg m) (S n) -> m_type m <> TReturn.
+
+Lemma hijack_ret_dead s s' : step (LHijack false) s = Some s' -> ret_dead s'.
+Proof.
+  intros H. apply step_tstep in H. inversion H; subst. split; [reflexivity|]. intros m n Hrd. rewrite hijack_reader in Hrd. congruence.
+Qed.
+
+Lemma ret_dead_step s l s' : tstep s l s' -> ret_dead s ->
+  ret_dead s' /\ forall m, In (IMsg m) (log (ch s')) -> m_type m = TReturn -> In (IMsg m) (log (ch s)).
+Proof.
+  intros H [Hk Hrd].
+  destruct H; unfold ret_dead; cbn [ch reader kret with_ch with_callers with_wlock with_wire with_reader with_socket finish];
+    rewrite ?log_subscribe, ?log_drop, ?log_close;
+    try (split; [split; [exact Hk | exact Hrd] | intros m0 Hin _; exact Hin]).
+  - apply try_recv_got in H1. destruct H1 as (p0 & _ & _ & Hl & _). rewrite Hl. split; [split; [exact Hk | exact Hrd] | intros m0 Hin _; exact Hin].
+  - apply try_recv_got in H1. destruct H1 as (p0 & _ & _ & Hl & _). rewrite Hl. split; [split; [exact Hk | exact Hrd] | intros m0 Hin _; exact Hin].
+  - apply try_recv_got in H1. destruct H1 as (p0 & _ & _ & Hl & _). rewrite Hl. split; [split; [exact Hk | exact Hrd] | intros m0 Hin _; exact Hin].
+  - (* read *) split; [|intros m0 Hin _; exact Hin]. split; [exact Hk|]. intros m n E. inversion E; subst it. intros Ht.
+    unfold fanout in H3. rewrite Ht, Hk in H3. discriminate.
+  - (* push *) apply try_push_pushed in H0. destruct H0 as (Hl & _). split.
+    + split; [exact Hk|]. intros m n0 E. inversion E; subst. eapply Hrd. exact H.
+    + intros m0 Hin Ht. rewrite Hl in Hin. apply in_app_iff in Hin. destruct Hin as [Hin|[E|[]]]; [exact Hin|]. subst it.
+      exfalso. exact (Hrd _ _ H Ht).
+  - (* push skipped *) split; [|intros m0 Hin _; exact Hin]. split; [exact Hk|]. intros m n0 E. inversion E; subst. eapply Hrd. exact H.
+  - split; [|intros m0 Hin _; exact Hin]. split; [exact Hk|]. intros m0 n E. discriminate.
+  - split; [|intros m0 Hin _; exact Hin]. split; [exact Hk|]. intros m0 n E. discriminate.
+  - (* another hijack *) rewrite hijack_log. split; [|intros m0 Hin _; exact Hin]. split.
+    + unfold hijack. cbn [kret]. destruct e; [exact Hk | reflexivity].
+    + intros m n E. rewrite hijack_reader in E. congruence.
+Qed.
+
+Theorem returns_lost_for_ever : forall tr' s s', ret_dead s -> exec tr' s = Some s' ->
+  ret_dead s' /\ forall m, In (IMsg m) (log (ch s')) -> m_type m = TReturn -> In (IMsg m) (log (ch s)).
+Proof.
+  induction tr' as [|l tr' IH]; intros s s' Hd He; cbn [exec] in He.
+  - inversion He; subst. split; [exact Hd | auto].
+  - destruct (step l s) as [s1|] eqn:Es; [|discriminate]. apply step_tstep in Es. destruct (ret_dead_step _ _ _ Es Hd) as [Hd1 Hl1].
+    destruct (IH _ _ Hd1 He) as [Hd' Hl']. split; [exact Hd'|]. intros m Hin Ht. apply Hl1; [|exact Ht]. apply Hl'; assumption.
+Qed.
+
+(* the forms stated in Properties/C19.v *)
+Theorem delivery_partial_stated :
+  forall cs cap0 t tr s i c m rest, reach cs cap0 t tr s -> has_hijack tr = false ->
+    reader s = RIdle -> socket s = IMsg m :: rest ->
+    nth_error (callers s) i = Some c -> c_st c = CWaiting -> answers m (c_serial c) = true -> qlen (ch s) < cap (ch s) ->
+    exists s', exec [LRead; LPush; LNext] s = Some s' /\ log (ch s') = log (ch s) ++ [IMsg m] /\ reader s' = RIdle /\ socket s' = rest.
+Proof. intros cs cap0 t tr s i c m rest Hr Hk. exact (delivery_partial cs cap0 t tr s i c m rest Hr (fun _ => Hk)). Qed.
+
+Theorem hijack_refuted_stated :
+  ~ (forall cs cap0 t tr s i c m rest, reach cs cap0 t tr s ->
+       reader s = RIdle -> socket s = IMsg m :: rest ->
+       nth_error (callers s) i = Some c -> c_st c = CWaiting -> answers m (c_serial c) = true -> qlen (ch s) < cap (ch s) ->
+       exists s', exec [LRead; LPush; LNext] s = Some s' /\ log (ch s') = log (ch s) ++ [IMsg m] /\ reader s' = RIdle /\ socket s' = rest).
+Proof. intros H. apply hijack_refuted. intros cs cap0 t tr s i c m rest Hr _. exact (H cs cap0 t tr s i c m rest Hr). Qed.
+
+Theorem hijacked_returns_lost : forall s0 s tr' s',
+  step (LHijack false) s0 = Some s -> exec tr' s = Some s' ->
+  forall m, In (IMsg m) (log (ch s')) -> m_type m = TReturn -> In (IMsg m) (log (ch s)).
+Proof. intros s0 s tr' s' Hh He. exact (proj2 (returns_lost_for_ever tr' s s' (hijack_ret_dead s0 s Hh) He)). Qed.
 
 (* ------------------------------------------------------------------ non-vacuity: three callers, replies out of order, one of them
    queued before its caller ever polls, a stray, a failure at the end *)
